@@ -3,6 +3,7 @@ package verifharness
 import (
 	"encoding/json"
 	"fmt"
+	"github.com/0xReLogic/Helios/internal/config"
 	"net/http"
 	"net/http/httptest"
 	"sync/atomic"
@@ -14,11 +15,11 @@ import (
 // ---- sigterm suite (C19, process level): the real binary is told to stop while requests and probes are in flight ----
 
 type SgCase struct {
-	Phase    string `json:"phase"`    // idle | headers | body | stuck (the backend never answers: the request cannot finish within the time-out)
-	HangHC   bool   `json:"hanghc"`   // active checks enabled against a health endpoint that never answers
-	Timeout  int    `json:"timeout"`  // server.timeouts.shutdown, seconds
-	Signals  int    `json:"signals"`  // how many times the signal is sent
-	Interrupt bool  `json:"interrupt"` // SIGINT instead of SIGTERM
+	Phase     string `json:"phase"`     // idle | headers | body | stuck (the backend never answers: the request cannot finish within the time-out) | partial (the request head is half sent when the signal arrives)
+	HangHC    bool   `json:"hanghc"`    // active checks enabled against a health endpoint that never answers
+	Timeout   int    `json:"timeout"`   // server.timeouts.shutdown, seconds
+	Signals   int    `json:"signals"`   // how many times the signal is sent
+	Interrupt bool   `json:"interrupt"` // SIGINT instead of SIGTERM
 }
 
 func runSgCase(c SgCase, tag string) (string, map[string]int) {
@@ -28,6 +29,12 @@ func runSgCase(c SgCase, tag string) (string, map[string]int) {
 	be := httptest.NewServer(http.HandlerFunc(func(w http.ResponseWriter, r *http.Request) {
 		switch r.URL.Path {
 		case "/hc":
+			if c.HangHC && c.Phase == "partial" {
+				// a slow but healthy endpoint: the probe that is in flight when the signal arrives would have succeeded
+				time.Sleep(700 * time.Millisecond)
+				w.WriteHeader(200)
+				return
+			}
 			if c.HangHC {
 				select {
 				case <-r.Context().Done():
@@ -53,13 +60,30 @@ func runSgCase(c SgCase, tag string) (string, map[string]int) {
 	if c.HangHC {
 		cfg.HealthChecks.Active.Enabled, cfg.HealthChecks.Active.Interval, cfg.HealthChecks.Active.Timeout, cfg.HealthChecks.Active.Path = true, 2, 1, "/hc"
 	}
+	if c.Phase == "partial" {
+		// a failed probe ejects for the passive window: a probe cancelled by the shutdown must not cost the request its backend
+		cfg.HealthChecks.Passive = config.PassiveHealthCheckConfig{Enabled: true, UnhealthyThreshold: 3, UnhealthyTimeout: 30}
+	}
 	hp, err := startHelios(cfg, "sg."+tag)
 	if err != nil {
 		panic(err)
 	}
 	var progress atomic.Int64
 	respCh := make(chan wireResp, 1)
-	if c.Phase != "idle" {
+	sendRest := make(chan struct{})
+	if c.Phase == "partial" {
+		close(relHeaders)
+		close(relBody)
+		if c.HangHC {
+			time.Sleep(2100 * time.Millisecond) // a probe is in flight now (interval 2 s, the endpoint takes 0.7 s)
+		}
+		go func() {
+			req := buildRequest("GET", "/slow", "sg.local", nil, nil, "")
+			respCh <- rawExchangeGated(fmt.Sprintf("127.0.0.1:%d", hp.port), req, "GET", 8*time.Second, func(n int) { progress.Store(int64(n)) }, len(req)/2, sendRest)
+		}()
+		time.Sleep(80 * time.Millisecond)
+	}
+	if c.Phase != "idle" && c.Phase != "partial" {
 		go func() {
 			respCh <- rawExchangeP(fmt.Sprintf("127.0.0.1:%d", hp.port), buildRequest("GET", "/slow", "sg.local", nil, nil, ""), "GET", 8*time.Second,
 				func(n int) { progress.Store(int64(n)) })
@@ -83,10 +107,13 @@ func runSgCase(c SgCase, tag string) (string, map[string]int) {
 	}
 	time.Sleep(150 * time.Millisecond)
 	// the exchange is allowed to finish now
+	if c.Phase == "partial" {
+		close(sendRest)
+	}
 	if c.Phase == "headers" {
 		close(relHeaders)
 	}
-	if c.Phase != "idle" && c.Phase != "stuck" {
+	if c.Phase != "idle" && c.Phase != "stuck" && c.Phase != "partial" {
 		close(relBody)
 	}
 	if c.Phase == "stuck" {
@@ -111,7 +138,7 @@ func runSgCase(c SgCase, tag string) (string, map[string]int) {
 		hp.cmd.Process.Kill()
 	}
 	// a new connection after the exit must be refused
-	phase := map[string]int{"idle": 0, "headers": 1, "body": 2, "stuck": 3}[c.Phase]
+	phase := map[string]int{"idle": 0, "headers": 1, "body": 2, "stuck": 3, "partial": 1}[c.Phase]
 	stats["phase_"+c.Phase]++
 	return fmt.Sprintf("mkSgCase %d %s %d %d %s %s %s", phase, B(c.HangHC), c.Timeout, c.Signals, B(completed), ZI(int(exitMs)), ZI(code)), stats
 }
@@ -125,6 +152,8 @@ func TestSigterm(t *testing.T) {
 		}
 	}
 	cases = append(cases, SgCase{Phase: "body", HangHC: true, Timeout: 2, Signals: 3}, SgCase{Phase: "headers", Timeout: 2, Signals: 2, Interrupt: true})
+	// a request whose head is half received when the signal arrives, with and without a probe in flight: it is served
+	cases = append(cases, SgCase{Phase: "partial", HangHC: true, Timeout: 3, Signals: 1}, SgCase{Phase: "partial", Timeout: 3, Signals: 1})
 	// a request that cannot finish: the process still stops cleanly when the time-out is over
 	cases = append(cases, SgCase{Phase: "stuck", HangHC: true, Timeout: 1, Signals: 1}, SgCase{Phase: "stuck", Timeout: 1, Signals: 1})
 	if Tier() == "thorough" {
